@@ -39,6 +39,7 @@ func (e *Exec) argInt(v Value) int {
 
 func (g *Engine) registerIntrinsics() {
 	I := g.intr
+	g.registerHashIntrinsics()
 	vx := func(name string, h func(e *Exec, a []Value, pos token.Pos) Value) {
 		I["vx:"+name] = func(e *Exec, fn *ssa.Function, a []Value, pos token.Pos) Value {
 			if e.spec > 0 {
@@ -573,7 +574,11 @@ func (e *Exec) ufApply(name string, w int, seqs ...byteSeq) *Term {
 	return out
 }
 
-// ufConstraints adds functional-consistency constraints (Ackermann with Skolem witnesses).
+// ufConstraints adds functional-consistency constraints (Ackermann with Skolem
+// witnesses) for the UF applications whose outputs the script mentions (to a
+// fixpoint: a constraint may mention further outputs through nested hashing).
+// A pair constraint none of whose outputs occurs elsewhere is satisfiable on
+// its own and is left out.
 func (e *Exec) ufConstraints(s *Script) {
 	tb := e.tb
 	var names []string
@@ -581,21 +586,35 @@ func (e *Exec) ufConstraints(s *Script) {
 		names = append(names, n)
 	}
 	sortStrings(names)
-	for _, n := range names {
-		apps := e.ufApps[n]
-		for i := 0; i < len(apps); i++ {
-			for j := i + 1; j < len(apps); j++ {
-				a, b := apps[i], apps[j]
-				differ := tb.False()
-				for k := range a.seqs {
-					qa, qb := a.seqs[k], b.seqs[k]
-					w := tb.Var(fmt.Sprintf("ufw_%s_%d_%d_%d", n, i, j, k), 64)
-					d := tb.Not(tb.Cmp(OEq, qa.len, qb.len))
-					in := tb.And(tb.Cmp(OSle, tb.K(64, 0), w), tb.Cmp(OSlt, w, qa.len))
-					d = tb.Or(d, tb.And(in, tb.Not(tb.Cmp(OEq, e.seqByte(qa, w), e.seqByte(qb, w)))))
-					differ = tb.Or(differ, d)
+	type pair struct {
+		n    string
+		i, j int
+	}
+	done := map[pair]bool{}
+	for changed := true; changed; {
+		changed = false
+		for _, n := range names {
+			apps := e.ufApps[n]
+			for i := 0; i < len(apps); i++ {
+				for j := i + 1; j < len(apps); j++ {
+					p := pair{n, i, j}
+					a, b := apps[i], apps[j]
+					if done[p] || !(s.used[a.out.name] || s.used[b.out.name]) {
+						continue
+					}
+					done[p] = true
+					changed = true
+					differ := tb.False()
+					for k := range a.seqs {
+						qa, qb := a.seqs[k], b.seqs[k]
+						w := tb.Var(fmt.Sprintf("ufw_%s_%d_%d_%d", n, i, j, k), 64)
+						d := tb.Not(tb.Cmp(OEq, qa.len, qb.len))
+						in := tb.And(tb.Cmp(OSle, tb.K(64, 0), w), tb.Cmp(OSlt, w, qa.len))
+						d = tb.Or(d, tb.And(in, tb.Not(tb.Cmp(OEq, e.seqByte(qa, w), e.seqByte(qb, w)))))
+						differ = tb.Or(differ, d)
+					}
+					s.Assert(tb.Or(differ, tb.Cmp(OEq, a.out, b.out)))
 				}
-				s.Assert(tb.Or(differ, tb.Cmp(OEq, a.out, b.out)))
 			}
 		}
 	}
